@@ -407,6 +407,11 @@ static Plan make_plan(const std::string& prop, uint64_t root, uint64_t idx, bool
         if (c10_enum) { long k = (long)(idx % 4096); p.trunc = (k == 0) ? -1 : (k < sz ? k : -2); }
         else if (r.below(4) != 0 && sz > 1) { p.trunc = r.below(3) == 0 ? (long)r.below((uint32_t)std::min<long>(sz, 64)) + 1 : 1 + (long)r.below((uint32_t)(sz - 1)); if (p.trunc >= sz) p.trunc = sz - 1; }
     }
+    if (prop == "C10" && !g_sweep && p.trunc < 0 && r.below(3) == 0) {
+        // an output file that cannot be opened or whose close fails: the run may fail, it must stay memory-safe
+        IoFault f; f.call = r.below(2) ? "fopen" : "fclose"; f.nth = 1 + (int)r.below(12); static const int errs[] = {ENOSPC, EMFILE, EIO, EACCES}; f.err = errs[r.below(4)];
+        p.faults.push_back(f);
+    }
     if (prop == "C20" && r.below(3) == 0) {
         IoFault f; f.call = r.below(3) ? "fopen" : "fclose"; f.nth = 1 + (int)r.below(6); static const int errs[] = {ENOSPC, EMFILE, EIO, EACCES}; f.err = errs[r.below(4)];
         p.faults.push_back(f);
@@ -752,8 +757,9 @@ static int do_run(uint64_t idx, Plan& p) {
     if (p.prop == "C10") {
         if (p.trunc == -2) { printf("R idx=%llu seed=%llu status=skip verdict=pass sig=- log=0 il=0 steps=0 switches=0 memev=0 simns=0 ops=0 tasks=0 faults=- probes=- replay=-\n", (unsigned long long)idx, (unsigned long long)p.seed); return 0; }
         run_translator(p, false, o);
+        bool deliberate_abort = !p.faults.empty() && (o.sig == SIGABRT || o.exit_code == 134) && o.stderr_tail.find("w2c2: failed to ") != std::string::npos && o.stderr_tail.find("Assertion") == std::string::npos && o.stderr_tail.find("Sanitizer") == std::string::npos;
         if (o.exit_code == 92) status = "budget";            // the simulator's own step budget ran out: counted, not judged
-        else crash_oracle(p, o, "C10", v, p.trunc >= 0);
+        else if (!deliberate_abort) crash_oracle(p, o, "C10", v, p.trunc >= 0);
         extra = std::string(",truncated:") + (p.trunc >= 0 ? "1" : "0") + ",exit_nonzero:" + (o.exit_code != 0 ? "1" : "0");
     } else if (p.prop == "C20") {
         run_translator(p, false, o);
